@@ -61,9 +61,11 @@ Sort_    == "sort" \in Ops /\ \E i \in DOMAIN pool : Room /\
 Obs(kind) == \E i \in DOMAIN pool : CanDo /\ prog' = Append(prog, [op |-> kind, t |-> i]) /\ obs' = [kind |-> "rows", t |-> i] /\ UNCHANGED <<pool, nfresh>>
 Rows_    == "rows" \in Ops /\ Obs("rows")           \* tolist / from_entry_tuples round trip
 Dict_    == "dict" \in Ops /\ Obs("dict")           \* todict / from_dict round trip
-Pandas_  == "pandas" \in Ops /\ Obs("pandas")       \* topandas / from_data_frame round trip
+Pandas_  == "pandas" \in Ops /\ Obs("pandas")       \* topandas / from_data_frame round trip; the frame handed out is the caller's own:
+                                                    \* the driver writes into it afterwards and the pool must stay as it is (UNCHANGED pool in Obs)
 Iter_    == "iter" \in Ops /\ Obs("iter")           \* iteration over entries
 Len_     == "len" \in Ops /\ Obs("len")
+Row_     == "row" \in Ops /\ Obs("row")            \* t[j] for every single position j (and -1): the row itself, all columns at once
 
 \* construction converts each column to its declared type or raises: the table is rebuilt from the columns of table i, presented as
 \*   "strings"   rows of plain Python values                      -> the same rows
@@ -76,7 +78,7 @@ Construct_ == "construct" \in Ops /\ \E i \in DOMAIN pool : \E fm \in {"strings"
                 obs' = [kind |-> "construct", t |-> i, must_raise |-> (fm = "bad"), may_raise |-> (fm \in {"as-id", "other", "bad"})] /\
                 UNCHANGED <<pool, nfresh>>
 
-Next == Construct_ \/ Index_ \/ Concat_ \/ Replace_ \/ AddField_ \/ AddExisting_ \/ Sort_ \/ Rows_ \/ Dict_ \/ Pandas_ \/ Iter_ \/ Len_
+Next == Construct_ \/ Index_ \/ Concat_ \/ Replace_ \/ AddField_ \/ AddExisting_ \/ Sort_ \/ Rows_ \/ Dict_ \/ Pandas_ \/ Iter_ \/ Len_ \/ Row_
 Spec == Init /\ [][Next]_vars
 
 \* ---- properties
